@@ -212,7 +212,8 @@ def _mapper_config(run, P):
         if isinstance(n, ast.If) and _only_none_or_str(n.test, pname):
             rets = [s_ for s_ in n.body if isinstance(s_, ast.Return)]
             if rets and _is_empty_set(rets[0].value):
-                other = [s_ for s_ in n.orelse if isinstance(s_, ast.Return)]
+                from .util import else_part
+                other = [s_ for s_ in else_part(ed.node, n) if isinstance(s_, ast.Return)]
                 if other and "super().map_foreign" in ast.unparse(other[0]):
                     ok = True
     run.ob("C08.mapper", ed, ed.node, ok and n_empty == 1,
